@@ -40,6 +40,9 @@ def tree_files(files, root: str) -> dict:
         text = f"def fn_{tag}(a: int) -> int:\n    ...\n\n\nclass Cl_{tag}:\n    pass\n"
         if not p and f["stem"] == "keepmod":
             text = "".join(f"import {'.'.join([root, *d])}\n" for d in dirs_of(files) if d not in plain_dirs(files)) + "\n\n" + text
+            # ... and every module in them (the type checker follows imports; discovery must not)
+            text = "".join(f"import {'.'.join([root, *g['path'], g['stem']])}\n" for g in files
+                           if g["path"] and tuple(g["path"]) not in plain_dirs(files)) + text
         out["/".join([*p, f["stem"] + ".py"])] = text
     return out
 
